@@ -384,6 +384,31 @@ def concurrent_double(decisions, nthreads=2):
         w.close()
 
 
+def equal_id_pair_two_connections(rec):
+    """Two peers have requests with the same hop-by-hop AND end-to-end identifier pending (both are unique per
+    connection / per origin only); the application answers the one that arrived later."""
+    from dv.common import fp
+    w = W.NodeWorld({"peers": [{"name": f"peer{i + 1}.example", "ip": [f"10.1.1.{i + 1}"]} for i in range(2)],
+                     "apps": [{"app_id": 4, "auth": True, "peers": [0, 1], "kind": "basic", "handler": "hold"}],
+                     "node_timers": {"idle": 5000, "dwa": 50, "cer": 50, "cea": 50, "wakeup": 3}})
+    case = {"equal_id_pair": [0xa0, 0x5001], "answered": "the request of peer2 (arrived second)"}
+    try:
+        w.start()
+        cs = [w.handshake_in(f"peer{i + 1}.example", auth=[4], ip=f"10.1.1.{i + 1}", hbh=0x100 + i) for i in range(2)]
+        for i, c in enumerate(cs):
+            w.feed_msg(c, {"k": "REQ", "host": f"peer{i + 1}.example", "hbh": 0xa0, "e2e": 0x5001})
+        rec2 = [r for r in w.requests_seen if r["origin"] == b"peer2.example"][0]
+        w.submit_answer(rec2)
+        on1 = [f for f in cs[0].refresh() if not f.is_request and f.code == 272]
+        on2 = [f for f in cs[1].refresh() if not f.is_request and f.code == 272]
+        if on1 or len(on2) != 1:
+            rec.violation("C09/equal-id-pair/answer-on-other-connection", case,
+                          f"answer to peer2's request: {len(on1)} frame(s) on peer1's connection, {len(on2)} on peer2's")
+        rec.case(fp("equal-pair"), ["equal-id-pair-two-connections"], sample=lambda: case)
+    finally:
+        w.close()
+
+
 def install_points_tables():
     from dv import sched, simkernel as sk
     mods = sk.load_node()
@@ -495,6 +520,8 @@ def shard_main(shard, nshards, tier, scale):
     shrunk = set()
     schedule_part(rec, shard, nshards, thorough)
     schedule_part_tables(rec, shard, nshards, thorough)
+    if shard == 2 % nshards:
+        equal_id_pair_two_connections(rec)
     n = int((10000 if thorough else 800) * scale)
     req = st.tuples(st.just("REQ"), st.integers(0, 2), st.integers(0, 2))
     ev = st.one_of(req, req, req, st.tuples(st.just("REQ_RAISE"), st.integers(0, 2), st.integers(0, 2)),
@@ -558,7 +585,7 @@ def run(tier, scale=1.0):
     rec = Recorder(PID)
     for d in hyp.pool_run(shard_main, (tier, scale)):
         rec.merge(d)
-    required = {"table-change:loss": 1, "table-change:first-request": 1, "schedule-exploration": 1, "deviations:2": 1, "npeers:3": 1, "app:threading": 1, "fault:eof": 1, "fault:reset": 1, "fault:dpr": 1,
+    required = {"equal-id-pair-two-connections": 1, "table-change:loss": 1, "table-change:first-request": 1, "schedule-exploration": 1, "deviations:2": 1, "npeers:3": 1, "app:threading": 1, "fault:eof": 1, "fault:reset": 1, "fault:dpr": 1,
                 "fault:reconnect": 1, "fault:reconnect-overlap": 1, "lost-while-handling": 1, "watchdog-outstanding": 1, "dwa-after-dpr": 1, "handler-raised-then-submit": 1, "direct-send-message": 1, "out0:True": 1, "double-submission": 1, "equal-hbh-two-conns": 1, "reqs:4": 1}
     return finish(rec, tier=tier, level=LEVEL, rule=RULE, assumptions=ASSUME, t0=t0,
                   required_classes=required)
